@@ -27,6 +27,7 @@ import (
 	"runtime/pprof"
 	"strconv"
 	"strings"
+	"sync/atomic"
 	"syscall"
 	"time"
 
@@ -185,6 +186,33 @@ type wctx struct {
 	trust    signers.VerifyOpts
 	tsReq    map[int]*pkcs9.TimeStampReq
 	msample  [1]metrics.Sample
+	// current entry, for the runaway-growth watchdog
+	curCase, curEntry atomic.Int64
+	curStart          atomic.Int64 // unix nanos; 0 = idle
+}
+
+// runawayLimit: an entry that has been running for more than 100 ms and holds
+// more than this much heap has violated the allocation bound (64 MiB + 64 x
+// input, i.e. < 100 MiB for every input here) several times over already; waiting for it to grind into the 4 GiB address-space limit
+// only costs time. The worker dumps all stacks and exits with status 97.
+const runawayLimit = 512 << 20
+
+func (w *wctx) watch() {
+	smp := []metrics.Sample{{Name: "/memory/classes/heap/objects:bytes"}}
+	for {
+		time.Sleep(25 * time.Millisecond)
+		st := w.curStart.Load()
+		if st == 0 || time.Now().UnixNano()-st < int64(100*time.Millisecond) {
+			continue
+		}
+		metrics.Read(smp)
+		if v := smp[0].Value.Uint64(); v > runawayLimit {
+			buf := make([]byte, 1<<20)
+			buf = buf[:runtime.Stack(buf, true)]
+			fmt.Fprintf(os.Stderr, "C11-RUNAWAY case=%d entry=%d heap=%d after=%dms\n%s\n", w.curCase.Load(), w.curEntry.Load(), v, (time.Now().UnixNano()-st)/1e6, buf)
+			os.Exit(97)
+		}
+	}
 }
 
 func workerMain() {
@@ -200,7 +228,7 @@ func workerMain() {
 	}
 	// no core files from deliberate crashes
 	_ = syscall.Setrlimit(syscall.RLIMIT_CORE, &syscall.Rlimit{Cur: 0, Max: 0})
-	procs := 2
+	procs := 2 // the watchdog goroutine must get a processor while an entry spins
 	if v := os.Getenv("C11_GOMAXPROCS"); v != "" {
 		procs, _ = strconv.Atoi(v)
 	}
@@ -238,6 +266,8 @@ func workerMain() {
 	}
 	runtime.GC()
 	w.baseG = runtime.NumGoroutine()
+	go w.watch()
+	w.baseG++
 	for sc.Scan() {
 		f := strings.SplitN(sc.Text(), "\t", 4)
 		if len(f) != 4 {
@@ -287,9 +317,19 @@ func (w *wctx) runCase(caseID int, s *Seed, mask uint32, m mutate.Mutation) {
 		_, _ = w.progress.WriteAt(pb[:], 0)
 		a0, h0 := w.memNow()
 		t0 := time.Now()
+		w.curCase.Store(int64(caseID))
+		w.curEntry.Store(int64(ei))
+		w.curStart.Store(t0.UnixNano())
 		class, sig, pi := w.guard(s, entry, path, data)
+		w.curStart.Store(0)
 		el := time.Since(t0)
 		a1, h1 := w.memNow()
+		if w.confirm && a1-a0 > 64<<20 && pi == nil {
+			// name the allocation site: the heap profile always samples giant objects
+			if site, frames := biggestAllocSite(); site != "" {
+				pi = &panicInfo{Func: site, Msg: "largest allocation site", Frames: frames}
+			}
+		}
 		w.settle()
 		talloc := a1 - a0
 		if talloc > 64<<20 {
@@ -313,6 +353,41 @@ func (w *wctx) runCase(caseID int, s *Seed, mask uint32, m mutate.Mutation) {
 			os.Exit(0)
 		}
 	}
+}
+
+// biggestAllocSite returns the top relic function of the heap-profile record
+// with the most allocated bytes (the process is fresh and has run one entry).
+func biggestAllocSite() (string, []string) {
+	runtime.GC()
+	runtime.GC()
+	n, _ := runtime.MemProfile(nil, true)
+	recs := make([]runtime.MemProfileRecord, n+50)
+	n, ok := runtime.MemProfile(recs, true)
+	if !ok {
+		return "", nil
+	}
+	var best *runtime.MemProfileRecord
+	for i := range recs[:n] {
+		if best == nil || recs[i].AllocBytes > best.AllocBytes {
+			best = &recs[i]
+		}
+	}
+	if best == nil || best.AllocBytes < 32<<20 {
+		return "", nil
+	}
+	var names []string
+	fr := runtime.CallersFrames(best.Stack())
+	for {
+		f, more := fr.Next()
+		if f.Function != "" {
+			names = append(names, f.Function)
+		}
+		if !more {
+			break
+		}
+	}
+	top, frames := parseStack(strings.Join(names, "\n"))
+	return top, frames
 }
 
 // memNow returns (cumulative bytes allocated, heap bytes obtained from the
